@@ -42,8 +42,12 @@ Forms    == {"quoted", "sync", "nonsync"}
 Sizes    == {"small", "big", "huge"}    \* <= 4096;  4096 < n <= APPEND limit;  > APPEND limit
 Payloads == {"benign", "smuggle"}
 
-Units == [cmd : BufferedCmds \cup StreamCmds \cup SyntaxCmds, form : Forms, size : Sizes, payload : Payloads]
-           \cup [cmd : PlainCmds, form : {"none"}, size : {"small"}, payload : {"benign"}]
+\* pad: the rejected line in front of a literal header may be long (around the server's 4096-byte read
+\* buffer and beyond); the framing of what follows must not depend on it.  The harness sweeps the
+\* concrete lengths of a "long" line across the buffer boundaries.
+Units == [cmd : BufferedCmds \cup StreamCmds \cup SyntaxCmds, form : Forms, size : Sizes, payload : Payloads, pad : {"short"}]
+           \cup [cmd : SyntaxCmds, form : {"nonsync"}, size : Sizes, payload : Payloads, pad : {"long"}]
+           \cup [cmd : PlainCmds, form : {"none"}, size : {"small"}, payload : {"benign"}, pad : {"short"}]
 
 \* a quoted string cannot be big, cannot hold CR/LF; APPEND data is always a literal;
 \* the syntax-error placements only make sense with a literal
